@@ -71,6 +71,48 @@ def arias_exact(a, dt):
     return out
 
 
+def arias_float_variants(y, dt):
+    """Double-precision Arias series of the squared record `y` evaluated in the orders a reasonable implementation may use:
+    constant pi/(2g) applied to the running sum, to every panel, or to every sample; three spellings of the constant and of
+    the panel.  Used only to PROVE, per case, that an exact tie of the statement is a tie in floating point whatever the
+    evaluation order (own formulas; nothing here looks at the library)."""
+    y = np.asarray(y, dtype=float)
+    zero = np.zeros(1)
+    pans = [dt * (y[1:] + y[:-1]) / 2, (y[1:] + y[:-1]) * (dt / 2), 0.5 * dt * (y[1:] + y[:-1])]
+    for c in (math.pi / (2 * G), math.pi / 2 / G, 0.5 * math.pi / G):
+        for p in pans:
+            yield c * np.concatenate([zero, np.cumsum(p)])          # constant applied to the running sum
+            yield np.concatenate([zero, np.cumsum(c * p)])          # ... to every panel
+        z = c * y                                                   # ... to every sample
+        yield np.concatenate([zero, np.cumsum(dt * (z[1:] + z[:-1]) / 2)])
+        yield (c * dt) * np.concatenate([zero, np.cumsum((y[1:] + y[:-1]) / 2)])
+        yield (c * dt / 2) * np.concatenate([zero, np.cumsum(y[1:] + y[:-1])])
+
+
+def arias_ties_robust(a, dt, s, e, exact_vals):
+    """True when every floating-point evaluation order of arias_float_variants, with the thresholds taken either as
+    fraction*final value or by normalising the series with its final value, classifies EVERY sample exactly as the exact
+    rational arithmetic does (exact_vals: arias_exact(a, dt)).  Then strictness on the Arias path is decidable on this case:
+    typically a fraction 2^-p meeting a level exactly (fl(c*L) == 2^-p * fl(c*T) whenever L = 2^-p * T)."""
+    a = np.asarray(a, dtype=float)
+    y = a * a
+    if any(Fraction(float(q)) != Fraction(float(x)) ** 2 for q, x in zip(y, a)):
+        return False
+    total = exact_vals[-1]
+    lo, hi = Fraction(float(s)) * total, Fraction(float(e)) * total
+    want = np.array([bool(lo < v < hi) for v in exact_vals])
+    for w in arias_float_variants(y, dt):
+        t = w[-1]
+        if not (np.isfinite(t) and t > 0):
+            return False
+        if not np.array_equal((w > s * t) & (w < e * t), want):
+            return False
+        r = w / t
+        if not np.array_equal((r > s) & (r < e), want):
+            return False
+    return True
+
+
 # ---------------------------------------------------------------------------
 # strict-threshold scans
 
